@@ -1074,9 +1074,10 @@ def gen_real(tier):
     # (The real-time boards showed this by accident, through the start-up time of the library; on the
     # virtual clock the gap has to be scripted.)
     out.append(mk((2, 0), (), 1, pre_extra=[("sleep", 1)], acts={"A1": {1: [("alarm", 2, 1.5)]}}))
-    if tier != "quick":
-        for s in gen_exc_types(["runtime", "stopiter", "oserror", "interrupted", "keyboard", "base"]):
-            out.append(s)
+    # every exception class from an alarm, a watch and an idle callback (both tiers: on the virtual
+    # clock a script costs milliseconds)
+    for s in gen_exc_types(["runtime", "stopiter", "oserror", "interrupted", "keyboard", "base"]):
+        out.append(s)
     return out
 
 
